@@ -26,7 +26,7 @@ use crate::{
     c22::{self, Program},
     c30,
     lang::*,
-    vmrun::{self, ident_of, Ffi, IoCall, Outcome, RecIo},
+    vmrun::{self, Ffi, IoCall, Outcome, RecIo},
 };
 
 #[derive(Clone)]
